@@ -325,23 +325,23 @@ impl LunarMonth {
   }
 
   pub fn from_ym(year: isize, month: isize) -> Self {
-    let instance: Self;
     let key: String = format!("{}_{}", year, month);
-    let mut map: MutexGuard<HashMap<String, Vec<f64>>> = LUNAR_MONTH_CACHE.lock().unwrap();
-    let vec: Option<&Vec<f64>> = map.get(&key);
-    match vec {
-      Some(v) => instance = Self::from_cache((*v).to_owned()),
-      None => {
-        instance = Self::new(year, month).unwrap();
-        let mut l: Vec<f64> = Vec::new();
-        l.push(instance.get_year() as f64);
-        l.push(instance.get_month_with_leap() as f64);
-        l.push(instance.get_day_count() as f64);
-        l.push(instance.get_index_in_year() as f64);
-        l.push(instance.get_first_julian_day().get_day());
-        map.insert(key, l);
+    {
+      let map: MutexGuard<HashMap<String, Vec<f64>>> = LUNAR_MONTH_CACHE.lock().unwrap();
+      if let Some(v) = map.get(&key) {
+        return Self::from_cache((*v).to_owned());
       }
     }
+    // 计算放在锁外，非法年月导致的panic不会使缓存锁中毒
+    let instance: Self = Self::new(year, month).unwrap();
+    let mut l: Vec<f64> = Vec::new();
+    l.push(instance.get_year() as f64);
+    l.push(instance.get_month_with_leap() as f64);
+    l.push(instance.get_day_count() as f64);
+    l.push(instance.get_index_in_year() as f64);
+    l.push(instance.get_first_julian_day().get_day());
+    let mut map: MutexGuard<HashMap<String, Vec<f64>>> = LUNAR_MONTH_CACHE.lock().unwrap();
+    map.insert(key, l);
     return instance;
   }
 
